@@ -3,6 +3,7 @@ import ast
 
 from ..astutil import aug_form, catches_everything, dotted, effective, handler_names, method_call
 from ..callgraph import CallGraph, fid
+from ..consteval import fold_in
 from ..cfg import CFG, cfg_of, fact_key, norm, walk_own, _own_exprs
 from ..locks import regions
 from ..model import AnchorError
@@ -28,8 +29,11 @@ EXPLANATION = (
     'that can itself need the send lock; R8 no thread can join itself unprotected; R9 long-lived thread loops do not test-then-reload an '
     'attribute that other threads null (Crazyflie.link); R10 the dispatcher idles while there is no link. Bounded *time* and the clause '
     '"no connected after the first disconnected" are not decided.')
-ASSUMPTIONS = ['user callbacks are opaque and assumed not to block on library locks', 'a timed join/wait is treated as non-blocking for deadlock purposes']
+ASSUMPTIONS = ['user callbacks are opaque and assumed not to block on library locks', 'a join/wait with a timeout of at most 10 s (or one that cannot be folded) is treated as non-blocking for deadlock purposes']
 FLOORS = {'R11': 4, 'R12': 4, 'R1': 4, 'R2': 13, 'R3': 7, 'R4': 4, 'R5': 5, 'R6': 1, 'R7': 1, 'R8': 4, 'R9': 3, 'R10': 2}
+
+
+MAX_BOUNDED_WAIT_S = 10.0
 
 
 def blocking_calls(func):
@@ -38,7 +42,14 @@ def blocking_calls(func):
     for c in ast.walk(func.node):
         if not isinstance(c, ast.Call) or not isinstance(c.func, ast.Attribute):
             continue
-        timed = bool(c.args) or any(k.arg == 'timeout' for k in c.keywords)
+        tmo = c.args[0] if c.args else next((k.value for k in c.keywords if k.arg == 'timeout'), None)
+        timed = tmo is not None
+        if timed:
+            # a wait of minutes is a hang as far as "reaches the disconnected state in bounded time" goes (e.g. milliseconds handed to an API
+            # that takes seconds): a timeout that folds to more than MAX_BOUNDED_WAIT_S seconds does not count as bounded
+            v = fold_in(func, tmo)
+            if isinstance(v, (int, float)) and not isinstance(v, bool) and v > MAX_BOUNDED_WAIT_S:
+                timed = False
         if c.func.attr == 'join' and not timed and not isinstance(c.func.value, ast.Constant):
             recv = norm(c.func.value)
             if recv.startswith(("'", '"', 'os.path', 'path')) or 'str' in recv:
@@ -368,6 +379,10 @@ def all_updated_rules(ctx):
                 conj = {fact_key(norm(v)) for v in (ge.elt.values if isinstance(ge.elt, ast.BoolOp) and isinstance(ge.elt.op, ast.And) else [ge.elt])}
                 ok = conj == {fact_key('%s in self.values' % G), fact_key('%s in self.values[%s]' % (N, G))}
                 why = 'all(... for %s in toc for %s in toc[%s]) over both memberships' % (G, N, G)
+            elif len(gens) == 2 and gens[0][0] not in {x.id for x in ast.walk(ge.elt) if isinstance(x, ast.Name)} and 'self.values' not in norm(ge.elt):
+                # the per-name test does not mention the group at all (e.g. membership in a flattened set of names): a name that occurs in
+                # two groups is then counted as fetched for both once either arrived
+                ok, why = False, 'the completeness test %s ignores the group of the parameter: equal names in different groups are confused' % norm(ge.elt)
             else:
                 raise AnchorError('_check_if_all_updated: unrecognised all(...) form')
         elif len(loops) == 1 and isinstance(loops[0].target, ast.Name) and norm(loops[0].iter) == 'self.toc.toc' and \
